@@ -1,4 +1,4 @@
-CONSTANTS Users = {"u1", "u2"} Urls = {"a", "b"} MaxSteps = 4 CacheHead = FALSE
+CONSTANTS Users = {"u1", "u2"} Urls = {"a", "b"} MaxSteps = 4 CacheHead = FALSE CacheFirst = FALSE
 SPECIFICATION SpecH
 PROPERTIES OwnOrCachedGet
 CHECK_DEADLOCK FALSE
